@@ -143,6 +143,23 @@ def c14_scenarios(scripts, seed, quick, call, scn):
             steps += [{"do": "pause"}, {"do": "jump", "ms": 2000}, {"do": "resume"}, {"do": "advance", "ms": 60}]
         steps += [{"do": "advance", "ms": 200}]
         finish(scn("c14-slowlate-%d" % k, steps, seed=seed + k), push=False)
+    # a push subscription is deleted and created again under the same name between two push rounds
+    # (the clock stands still meanwhile): the new incarnation is pushed to like any other, the old
+    # one's outstanding message is not POSTed again
+    for k in range(3 if quick else 12):
+        steps = [{"do": "endpoint", "script": {"pa": [200] if k % 3 else [500, 500, 500, 500, 500, 500]}, "default": [200]},
+                 call(1, op="CreateTopic", name=T1), call(1, op="CreateSub", name=S1, topic=T1, ack=10, push="$EP"),
+                 call(1, op="Publish", topic=T1, msgs=[{"p": "pa"}]),
+                 {"do": "waithttp", "n": 1, "ms": 4000}, {"do": "advance", "ms": 60 + 20 * (k % 3)},
+                 {"do": "pause"},
+                 call(1, op="DeleteSub", name=S1)]
+        if k % 2:
+            steps.append(call(1, op="CreateSub", name=S2, topic=T1, ack=10, push="$EP"))
+        steps += [call(1, op="CreateSub", name=S1, topic=T1, ack=10 + k, push="$EP"),
+                  {"do": "resume"},
+                  call(1, op="Publish", topic=T1, msgs=[{"p": "pb"}, {"p": "pc"}]),
+                  {"do": "waithttp", "n": 20, "ms": 1500}, {"do": "advance", "ms": 200}]
+        finish(scn("c14-recreate-%d" % k, steps, seed=seed + k))
     # an endpoint on which nothing listens, and an unsupported endpoint
     steps = [{"do": "endpoint", "script": {}, "default": [200]},
              call(1, op="CreateTopic", name=T1), call(1, op="CreateSub", name=S1, topic=T1, ack=10, push="$DEAD"),
